@@ -600,7 +600,11 @@ SCENARIOS = {
                           ("recv", "r1", 5), ("steps", 6), ("cancel", "r1"), ("steps", 4), ("gate", 1), ("join", "w"),
                           ("recv", "r2", 5), ("join", "r2")],
 }
-SCENARIO_CODES = {name: i for i, name in enumerate(SCENARIOS)}
+# codes are part of recorded corpus inputs: never renumber, only append
+SCENARIO_CODES = {"echo": 0, "echo-2": 1, "abandoned-send": 2, "backpressure-read": 3, "cancel-after-read": 4,
+                  "second-send-behind-parked-send": 5}
+assert set(SCENARIO_CODES) == set(SCENARIOS)
+SCENARIO_NAMES = {v: k for k, v in SCENARIO_CODES.items()}
 # scenarios that fail on a tree without the corresponding fix: reported through the corpus / known_findings only
 KNOWN_SCENARIO_SIGNATURES = {"backpressure-read": "reader-queues-on-send-lock-with-nothing-to-flush",
                              "cancel-after-read": "cancelled-recv-loses-decrypted-plaintext"}
@@ -797,7 +801,7 @@ def _sx_cfg(f):
         return dict(kind="sync-duplex", ver=f[1], client=f[2], writes=list(f[3]), peer_writes=list(f[4]), frag=f[5],
                     seed=f[6], recv_size=f[7], into=f[8])
     if isinstance(f[0], bytes) and f[0] == b"scenario":
-        return dict(kind="scenario", flag=f[1], name=list(SCENARIOS)[f[2]], ver=f[3], client=f[4])
+        return dict(kind="scenario", flag=f[1], name=SCENARIO_NAMES[f[2]], ver=f[3], client=f[4])
     if isinstance(f[0], bytes):
         return dict(kind="two-readers", flag=f[1], ver=f[2], client=f[3])
     return dict(ver=f[0], client=f[1], writes=[w[0] if len(w) == 1 else list(w) for w in f[2]], peer_writes=list(f[3]),
